@@ -5,6 +5,8 @@ values actually handed to esutil (vp/oracle/sphere.py, pinned against mpmath in 
 Nothing of esutil is used to compute an expectation; the scalar-vs-array and symmetry relations
 are differential checks the statement asks for, applied in addition to the truth comparison.
 """
+import warnings
+
 import numpy as np
 from hypothesis import strategies as st
 
@@ -33,6 +35,10 @@ TECHNIQUE = ("Hypothesis-generated pair families + PCG64-expanded bodies; oracle
              "scalar-vs-array relations")
 LEVEL_TEXT = ("exploration: ~100-170 pairs per case; sphdist held to 1e-11 deg, gcirc to 2e-6 deg, on every "
               "generated pair of every adversarial family, unit option and container kind")
+
+# sphdist evaluates arcsin(>1) for antipodal pairs before overwriting it with the large-angle
+# formula; the RuntimeWarning is not a property violation (the returned value is what is judged)
+warnings.filterwarnings("ignore", category=RuntimeWarning, message="invalid value encountered")
 
 LD = sphere.LD
 TOL_SPH = 1e-11          # degrees, from the statement
